@@ -23,6 +23,8 @@ def main():
     try:
         for d in ('src', 'include', 'tests'):
             shutil.copytree(os.path.join(REPO, d), os.path.join(chg, d))
+        if os.path.exists(os.path.join(REPO, 'CMakeLists.txt')):
+            shutil.copy(os.path.join(REPO, 'CMakeLists.txt'), chg)
         r = sh(['patch', '-p1', '--no-backup-if-mismatch', '-i', os.path.abspath(patch)], cwd=chg)
         if r.returncode != 0:
             print(json.dumps({'id': bid, 'status': 'patch does not apply', 'log': r.stdout[-300:]})); return 2
